@@ -4,8 +4,11 @@ SPEC = {
     'coq_dir': 'C21',
     'claimed': True,
     'theorems': ['C21_init_consistent', 'C21_event_preserves', 'C21_consistent_all_histories',
-                 'C21_block_txs_gone', 'C21_refuted_shash', 'C21_shash_partial',
-                 'C21_oracle_accepts_invariant', 'C21_oracle_accepts_short', 'C21_oracle_accepts_block',
+                 'C21_block_txs_gone', 'C21_shash_owner_kept', 'C21_shash_fresh_indexed',
+                 'C21_shash_first_come_found', 'C21_owner_kept_under_collision',
+                 'C21_refuted_shash', 'C21_shash_partial',
+                 'C21_oracle_accepts_invariant', 'C21_oracle_accepts_short', 'C21_oracle_short_meaning',
+                 'C21_oracle_accepts_block',
                  'C21_guard_satisfiable', 'C21_peracc_hypothesis_needed'],
     'allowed_axioms': [],
     'shard': 24,
@@ -16,8 +19,11 @@ SPEC = {
             'block time; pool-age expiry through a shortened interval), queue capacity 1-6, per-sender limit 1-4, latest '
             'list 1-4, short-hash cache >= capacity; virtual clock via types.SetTimeDelta. Streams: "guarded" (no short-hash '
             'collision in the history: every spec failure is a violation), "collide" (contains real 40-bit short-hash '
-            'collisions found by a birthday search over 3e6 payloads; may hit the open finding), "collide-witness" '
-            '(push A, push B, remove B), "concurrent-smoke" (8 goroutines on one pool, only the final state is judged by the '
+            'collisions found by a birthday search over 3e6 payloads; may hit what is left of the open finding; every '
+            'other failure, in particular an indexed transaction losing its entry while pooled, is a violation), '
+            '"collide-witness" (push A, push B, remove A: the remaining refutation witness), "collide-repaired" (push A, '
+            'push B, remove B and variants: the witness repaired by a576c70, no failure allowed), '
+            '"concurrent-smoke" (8 goroutines on one pool, only the final state is judged by the '
             'oracle: a test, not part of the proof). After every event the full observable state is recorded (Walk order, '
             'Size, TxNumOfAccount and GetAccTxs per sender, GetLatestTx, short- and full-hash lookup of every known hash, '
             'TotalFee, GetTotalCacheBytes, error class). non-trivial = the pool is non-empty after some event; '
@@ -36,7 +42,12 @@ SPEC = {
         'MaxTxNumPerAccount >= 1 (hypothesis 1 <= c_peracc of every theorem; NewMempool replaces 0 by 100; a negative value '
         'breaks the bookkeeping, see C21_peracc_hypothesis_needed)',
         'short-hash clause: SubConfig.PoolCacheSize <= Mempool.PoolCacheSize (hypothesis c_qcap <= c_shmax; timeline.New sets '
-        'them equal by default), and sh injective on the pooled hashes in every state of the history (boolean guard sh_inj_pool)',
+        'them equal by default). "Every pooled transaction is found": sh injective on the pooled hashes in every state of the '
+        'history (boolean guard sh_inj_pool, C21_shash_partial). Without it (C21_shash_first_come_found): a transaction is found '
+        'from its push to its removal when no pooled transaction had its short hash at the moment of its push',
+        'the oracle clause spec_short demands a non-empty short-hash lookup for every pooled hash (the index holds one '
+        'transaction per short hash; with spec_base: found itself unless another pooled transaction with the same short hash is '
+        'returned, C21_oracle_short_meaning) - the strongest clause an index of this shape can satisfy',
         'Expire values above 2^62 (TxHeight style) are not modelled and not generated',
         'delBlock: the model receives the pool-level transactions of the block that pass Transaction.Check (group merging, '
         'miner skip and Check are executed by the Go side only)',
@@ -45,8 +56,10 @@ SPEC = {
     ],
     'manifest': {
         'level_text': 'full for sequential histories (invariant proved for all histories, tied to the Go code by per-event '
-                      'correspondence of all observables); short-hash clause partial (refuted without injectivity, open finding); '
-                      'concurrency partial (smoke test only)',
+                      'correspondence of all observables); short-hash clause partial: after chain33 a576c70 an index entry '
+                      'provably stays with its owner while the owner is pooled and a transaction pushed without a pooled '
+                      'collision is indexed (all histories), but the full clause is still refuted (a transaction pushed while '
+                      'a colliding one is pooled is never indexed: open finding, narrowed); concurrency partial (smoke test only)',
         'level_note': 'model = hand-written Gallina transcription of listmap/simplequeue/accountindex/lasttx/shorthashtx/cache/'
                       'base(eventAddBlock, delBlock, removeExpired); short hash abstract; hook file exports internals',
         'technique': 'Coq proof (invariant by induction over event histories) + in-kernel correspondence check',
